@@ -335,3 +335,148 @@ def inline_pages(pdf, bufsiz):
     finally:
         PDFContentParser.BUFSIZ = old
     return out
+
+
+# ------------------------------------------------------------------------------------------------ JBIG2 (extended coverage)
+# An independent encoder / parser of JBIG2 segment headers and the sequential file organisation, written from
+# ITU-T T.88 7.2 and annex D (not from pdfminer/jbig2.py and not from the TLA+ text); both are checked against each other
+# and against the bytes TLC's EncStd emits before they are used.
+JB2_FILE_ID = b"\x97JB2\r\n\x1a\n"
+
+
+def jb2_ref_width(num):
+    return 1 if num <= 256 else 2 if num <= 65536 else 4
+
+
+def jb2_encode(seg):
+    """seg: {num, type, deferred, palong, page, refs, retain (0/1, one for the segment + one per ref), data}"""
+    n = len(seg["refs"])
+    out = bytearray(struct.pack(">LB", seg["num"], seg["type"] | (0x40 if seg["palong"] else 0) | (0x80 if seg["deferred"] else 0)))
+    bits = list(seg["retain"])
+    if n <= 4:
+        out.append((n << 5) | sum(b << i for i, b in enumerate(bits)))
+    else:
+        out += struct.pack(">L", 0xE0000000 | n)
+        nb = (n + 1 + 7) // 8
+        bits += [0] * (8 * nb - len(bits))
+        out += bytes(sum(bits[8 * j + i] << i for i in range(8)) for j in range(nb))
+    w = jb2_ref_width(seg["num"])
+    for r in seg["refs"]:
+        out += r.to_bytes(w, "big")
+    out += struct.pack(">L", seg["page"]) if seg["palong"] else bytes([seg["page"]])
+    out += struct.pack(">L", len(seg["data"])) + bytes(seg["data"])
+    return bytes(out)
+
+
+def jb2_parse(b, pos=0):
+    """-> list of segments (same shape as jb2_encode takes); raises ValueError on a malformed stream"""
+    segs = []
+    while pos < len(b):
+        if pos + 6 > len(b):
+            raise ValueError("truncated segment header at %d" % pos)
+        num, fl = struct.unpack_from(">LB", b, pos)
+        r0 = b[pos + 5]
+        p = pos + 6
+        if r0 >> 5 < 7:
+            n = r0 >> 5
+            bits = [(r0 >> i) & 1 for i in range(5)]
+        else:
+            n = struct.unpack_from(">L", b, pos + 5)[0] & 0x1FFFFFFF
+            p = pos + 9
+            nb = (n + 1 + 7) // 8
+            bits = [(b[p + i // 8] >> (i % 8)) & 1 for i in range(8 * nb)]
+            p += nb
+        w = jb2_ref_width(num)
+        refs = [int.from_bytes(b[p + w * i:p + w * (i + 1)], "big") for i in range(n)]
+        p += w * n
+        palong = bool(fl & 0x40)
+        if palong:
+            page = struct.unpack_from(">L", b, p)[0]
+            p += 4
+        else:
+            page = b[p]
+            p += 1
+        dlen = struct.unpack_from(">L", b, p)[0]
+        p += 4
+        if p + dlen > len(b):
+            raise ValueError("segment %d: data runs past the end" % num)
+        segs.append({"num": num, "type": fl & 0x3F, "deferred": bool(fl & 0x80), "palong": palong, "page": page, "refs": refs,
+                     "retain": bits[:n + 1], "data": list(b[p:p + dlen])})
+        pos = p + dlen
+    return segs
+
+
+def jb2_parse_file(b):
+    if b[:8] != JB2_FILE_ID or len(b) < 13:
+        raise ValueError("no JBIG2 file header")
+    if b[8] & 1 != 1 or b[8] & 2:
+        raise ValueError("not a sequential file with a known number of pages")
+    return struct.unpack_from(">L", b, 9)[0], jb2_parse(b, 13)
+
+
+def jb2_expected_file(segs):
+    """what the exported file must hold: the embedded segments, an end-of-page segment if a page is still open, end of file"""
+    cur = 0
+    for s in segs:
+        cur = 0 if s["type"] == 49 else (s["page"] or cur)
+    out = [dict(s, data=list(s["data"])) for s in segs]
+    last = segs[-1]["num"] if segs else 0
+    if cur and segs:
+        out.append({"num": last + 1, "type": 49, "deferred": False, "palong": cur > 255, "page": cur, "refs": [], "retain": [0], "data": []})
+    out.append({"num": last + 2, "type": 51, "deferred": False, "palong": False, "page": 0, "refs": [], "retain": [0], "data": []})
+    return out
+
+
+def jb2_self_check():
+    import itertools
+    for num, n, palong, page, data in itertools.product((0, 256, 257, 65536, 65537), (0, 1, 4, 5, 9, 20), (False, True), (0, 1, 255), (b"", b"\n", b"ab")):
+        seg = {"num": num, "type": 6, "deferred": n % 2 == 1, "palong": palong, "page": page, "refs": list(range(1, n + 1)),
+               "retain": [(i * 5 + num) % 2 for i in range(n + 1)], "data": list(data)}
+        enc = jb2_encode(seg) + jb2_encode(dict(seg, num=num + 1))
+        back = jb2_parse(enc)
+        if back != [seg, dict(seg, num=num + 1)]:
+            raise MachineryError("JBIG2 reference encoder/parser do not invert each other for %r" % (seg,))
+    # a hand-assembled header (T.88 7.2: number 32, type 0, one referred-to segment 5 retained, page 3, 2 data bytes)
+    hand = bytes([0, 0, 0, 32, 0x00, 0x22, 5, 3, 0, 0, 0, 2, 0xAA, 0xBB])
+    if jb2_parse(hand) != [{"num": 32, "type": 0, "deferred": False, "palong": False, "page": 3, "refs": [5], "retain": [0, 1], "data": [0xAA, 0xBB]}]:
+        raise MachineryError("JBIG2 reference parser fails on the hand-assembled header")
+
+
+def jbig2_doc(image_bytes, globals_bytes=None, name="Im1"):
+    objs = {1: {"Type": Name("Catalog"), "Pages": Ref(2)}, 2: {"Type": Name("Pages"), "Kids": [Ref(3)], "Count": 1}}
+    at = {"Type": Name("XObject"), "Subtype": Name("Image"), "Width": 8, "Height": 1, "BitsPerComponent": 1, "ColorSpace": Name("DeviceGray"),
+          "Filter": Name("JBIG2Decode")}
+    if globals_bytes is not None:
+        objs[6] = Stream({}, globals_bytes)
+        at["DecodeParms"] = {"JBIG2Globals": Ref(6)}
+    objs[5] = Stream(at, image_bytes)
+    objs[4] = Stream({}, b"q 10 0 0 10 20 20 cm " + ser_name(name) + b" Do Q")
+    objs[3] = {"Type": Name("Page"), "Parent": Ref(2), "MediaBox": [0, 0, 200, 200], "Contents": Ref(4), "Resources": {"XObject": {name: Ref(5)}}}
+    return build([Revision(dict(sorted(objs.items())), root=Ref(1))])[0]
+
+
+def jbig2_direct(x, mode):
+    """the real reader and writer on the byte string x -> (status, reader dictionaries, bytes written)"""
+    from pdfminer.jbig2 import JBIG2StreamReader, JBIG2StreamWriter
+    try:
+        segs = JBIG2StreamReader(io.BytesIO(x)).get_segments()
+    except Exception as e:  # noqa: BLE001
+        return "read:" + ("struct.error" if type(e).__name__ == "error" else type(e).__name__), [], b""
+    o = io.BytesIO()
+    try:
+        w = JBIG2StreamWriter(o)
+        if mode == "roundtrip":
+            w.write_segments(segs, fix_last_page=False)
+        else:
+            w.write_file(segs)
+    except Exception as e:  # noqa: BLE001
+        return "write:" + ("struct.error" if type(e).__name__ == "error" else type(e).__name__), segs, o.getvalue()
+    return "ok", segs, o.getvalue()
+
+
+def jbig2_dict_view(d):
+    """a reader dictionary in the shape of JBIG2Ops.tla's Dict"""
+    rf = d["retention_flags"]
+    return {"number": d["number"], "deferred": bool(d["flags"]["deferred"]), "palong": bool(d["flags"]["page_assoc_long"]), "type": d["flags"]["type"],
+            "ref_count": rf["ref_count"], "retain": [int(bool(v)) for v in rf["retain_segments"]], "refs": list(rf["ref_segments"]),
+            "page": d["page_assoc"], "dlen": d["data_length"], "hasdata": "raw_data" in d, "data": list(d.get("raw_data", b""))}
